@@ -244,6 +244,8 @@ func (c *LocalActionsCache) FindMetadata(spec string) (*ActionMetadata, bool, er
 		msg := strings.ReplaceAll(err.Error(), "\n", " ")
 		return nil, false, fmt.Errorf("could not parse action metadata in %q: %s", dir, msg)
 	}
+	dropNilEntries(meta.Inputs)
+	dropNilEntries(meta.Outputs)
 	meta.file = f
 	meta.dir = dir
 
